@@ -36,6 +36,7 @@ func ruleR2pPredicate(c *Ctx) []Obligation {
 	m := travGetModel(c)
 	r := &travRun{c: c, m: m, tc: newTravCollector(m), hasUnit: map[string]bool{}}
 	r.learnLoopContext()
+	r3pLearnLoopContext(r) // the same bookkeeping written as a helper pair or a closure wrapper
 	units := r.enumerate()
 	for _, u := range units {
 		r.hasUnit[u.pkg.PkgPath+"|"+u.role.String()+"|"+u.subject.Name()] = true
